@@ -143,6 +143,38 @@ def t2_tiny(sx, size_byte, ndata):
     return exercise(sx, w, "tt2:symbolic-image", max_cmds=4 * (len(m) // 4) + 60)
 
 
+VERSIONS = ["0004030101000B03", "0004030201000B03", "0004030101000E03", "0004030201000E03",
+            "0004040101000B03", "0004040101000E03", "0004040201000F03", "0004040201001103",
+            "0004040201001303", "0004040502011303", "0004040502011503",
+            "0004040502021303", "00", "0004", "000404020100", "FFFFFFFFFFFFFFFF", ""]
+
+
+def t2_version(sx, phys_pages):
+    """NXP tag (UID starts with 04h) answering GET_VERSION with each known
+    product code, unknown codes, NAK, truncated and empty answers, on a memory
+    that need not have the size the product code promises; AUTHENTICATE (1Ah)
+    probe answered by NAK/silence or by AFh + 8 symbolic bytes (Ultralight C)"""
+    S = phys_pages * 4 - 16
+    w = worlds.T2World(sx, 48 if S >= 48 else 8, "", [], 3 if S >= 48 else 0, extra=max(S - 48, 0),
+                       symbolic_window=(0, 0), terminator=1)
+    sim = w.sim
+    w.uid = b"\x04\x51\x7C\xA1\xE1\xED\x25"
+    ver = sx.pick("version", VERSIONS)
+    ulc = sx.pick("ulc", [False, True])
+    orig = sim.execute
+
+    def execute(cmd):
+        if len(cmd) == 1 and cmd[0] == 0x60 and ver != "":
+            return sx.mkbytes(list(bytes.fromhex(ver)), True)
+        if len(cmd) == 2 and cmd[0] == 0x1A and ulc:
+            return sx.mkbytes([0xAF] + list(sx.bytes("ek", 8)), True)
+        if len(cmd) == 1 and cmd[0] == 0x3C:
+            return sx.mkbytes([0] * 32, True)
+        return orig(cmd)
+    sim.execute = execute
+    return exercise(sx, w, "tt2:nxp-version", max_cmds=4 * phys_pages + 80)
+
+
 def t2_gone(sx, S, n):
     w = worlds.T2World(sx, S, "L", [(16 + S, 2)], n, symbolic_window=(0, 0), terminator=1)
     return exercise(sx, w, "tt2:goes-silent", silence=True)
@@ -232,6 +264,9 @@ def t3_attr(sx, checksum_ok, nblocks, with_sys):
     else:
         m[14], m[15] = sx.byte("cs_hi"), sx.byte("cs_lo")
     w.with_sys = with_sys
+    # PMm bytes that the reader turns into command time-outs are symbolic too
+    w.sim.pmm[5] = sx.byte("pmm5")
+    w.sim.pmm[6] = sx.byte("pmm6")
     w.target = lambda: tags.tt3_target(w.sim, with_sys)
     return exercise(sx, w, "tt3:attribute-block", max_cmds=3 * 4200)
 
@@ -432,6 +467,8 @@ def partitions(tier):
     if tier != "quick":
         add("t2:tiny:1:4", "t2_tiny", size_byte=1, ndata=4)
     add("t2:gone", "t2_gone", S=48, n=20)
+    for pages in (16, 20, 45):
+        add("t2:version:%d" % pages, "t2_version", phys_pages=pages)
     T1 = [((0x11, 0x48), 120, "", []), ((0x12, 0x4C), 512, "LM", [(122, 6), (120, 2)]),
           ((0x12, 0x00), 512, "", [])]
     for hr, size, prefix, rsv in T1:
